@@ -448,7 +448,11 @@ class Main {
   function once(n: int): int = { let _ = Process.println("once"); if n <= 0 { 7 } else { Main.once(n - 1) } }
   function show(n: int): unit = { let _ = Process.println(Str.fromInt(n)); if n <= 0 { } else { Main.show(n - 1) } }
   function skip(n: int, acc: int): int = if n >= 10 { acc } else { let _ = Process.println("skip"); Main.skip(n + 1, acc + n) }
+  function o6(n: int, flag: bool): int = if n == 0 { 1 } else if flag { 2 } else { Main.o6(n - 1, flag) }
+  function o7(n: int, flag: bool): int = if n == 0 { let _ = Process.println("zero"); 1 } else if flag { let _ = Process.println("flag"); 2 } else { Main.o7(n - 1, flag) }
   function main(): unit = {
+    let _ = Process.println(Str.fromInt(Main.o6("0".toInt(), true)) :: " " :: Str.fromInt(Main.o6("3".toInt(), true)));
+    let _ = Process.println(Str.fromInt(Main.o7("0".toInt(), true) + Main.o7("4".toInt(), true)));
     let _ = Main.go(0);
     let _ = Main.once(0);
     let _ = Process.println(Str.fromInt(Main.once(0)));
@@ -457,7 +461,7 @@ class Main {
     let _ = Process.println(Str.fromInt(Main.skip(9, 5)));
   }
 }"#,
-      "go\nonce\nonce\n7\n0\n5\nskip\n14",
+      "1 2\nzero\nflag\n3\ngo\nonce\nonce\n7\n0\n5\nskip\n14",
       None,
     ),
 
@@ -552,6 +556,31 @@ class Main {
   }
 }"#,
       "4\n6\nstr!\nP1 P2/P3",
+      None,
+    ),
+
+    demo(
+      "loops whose guard, strides and carried values meet the loop optimizations",
+      r#"class Main {
+  function show(b: bool): unit = Process.println(if b { "T" } else { "F" })
+  function guardAgain(i: int, n: int): unit = if i >= n { } else { let _ = Main.show(i >= n); let _ = Process.println(Str.fromInt(i)); Main.guardAgain(i + 1, n) }
+  function derived(i: int, n: int, a: int, b: int): unit = if i >= n { } else { let t = (i + 1) * b; let _ = Process.println(Str.fromInt(t)); Main.derived(i + a, n, a, b) }
+  function carried(n: int, v: int): unit = if n <= 0 { } else { let _ = Process.println(Str.fromInt(v)); Main.carried(n - 1, v) }
+  function countDownBy3(i: int, acc: int): int = if i <= 0 { acc } else { Main.countDownBy3(i - 1, (i - 1) * 3) }
+  function upBy(i: int, n: int, s: int, acc: int): int = if i > n { acc } else { Main.upBy(i + s, n, s, acc + i * 2 + 1) }
+  function id(x: int): int = if x == 123456789 { Main.id(x - 1) } else { x }
+  function main(): unit = {
+    let _ = Main.guardAgain(Main.id(0), Main.id(2));
+    let _ = Main.derived(Main.id(0), Main.id(5), Main.id(2), Main.id(3));
+    let one = Main.id(1);
+    let x = one + 2;
+    let _ = Main.carried(Main.id(2), x);
+    let _ = Main.carried(2, 1 + 2);
+    let _ = Process.println(Str.fromInt(Main.countDownBy3(Main.id(10), 30)) :: " " :: Str.fromInt(Main.countDownBy3(10, 30)));
+    let _ = Process.println(Str.fromInt(Main.upBy(Main.id(0), Main.id(10), Main.id(2), 0)) :: " " :: Str.fromInt(Main.upBy(0, 10, 5, 0)) :: " " :: Str.fromInt(Main.upBy(1, 10, 3, 0)));
+  }
+}"#,
+      "F\n0\nF\n1\n3\n9\n15\n3\n3\n3\n3\n0 0\n66 33 48",
       None,
     ),
   ]
